@@ -28,10 +28,10 @@ from lark import (
     Lark,
     Transformer,
     v_args,
-    UnexpectedCharacters,
-    UnexpectedEOF,
+    UnexpectedInput,
     ParseTree,
 )
+from lark.exceptions import VisitError
 
 from .types import Nil
 
@@ -157,6 +157,29 @@ def _convert_params(params: Dict[str, Callable]) -> Dict[str, Any]:
         values.update(conversion_table[name](value))
 
     return values
+
+
+def _lark_error(
+    logger: Logger, filename: pathlib.Path, source: str, e: UnexpectedInput
+) -> Result[Nil, FcpError]:
+    # lark reports an unexpected end of input at line -1: cite the last line instead
+    line = e.line if e.line > 0 else len(source.split("\n"))
+    column = e.column if e.column > 0 else 1
+    return error(
+        logger.log_lark(filename.name, e),
+        Token(MetaData(line, line, column, column, 0, 0, str(filename))),
+    )
+
+
+def _visit_error(filename: pathlib.Path, e: VisitError) -> Result[Nil, FcpError]:
+    line = getattr(getattr(e.obj, "meta", None), "line", None)
+    node = (
+        Token(MetaData(line, line, 1, 1, 0, 0, str(filename)))
+        if line is not None
+        else None
+    )
+    reason = str(e.orig_exc).split("\n")[0]
+    return error(f"Invalid {e.rule}: {type(e.orig_exc).__name__}: {reason}", node)
 
 
 class ParserContext:
@@ -414,20 +437,18 @@ class FcpV2Transformer(Transformer):
         try:
             self.error_logger.add_source(filename.name, source)
             fcp_ast = fcp_parser.parse(source)
-        except (UnexpectedCharacters, UnexpectedEOF) as e:
-            return error(
-                self.error_logger.log_lark(filename.name, e),
-                Token(
-                    MetaData(e.line, e.line, e.column, e.column, 0, 0, str(filename))
-                ),
-            )
+        except UnexpectedInput as e:
+            return _lark_error(self.error_logger, filename, source, e)
 
-        fcp = FcpV2Transformer(
-            pathlib.Path(filename).resolve(),
-            self.parser_context,
-            self.filesystem_proxy,
-            self.error_logger,
-        ).transform(fcp_ast)
+        try:
+            fcp = FcpV2Transformer(
+                pathlib.Path(filename).resolve(),
+                self.parser_context,
+                self.filesystem_proxy,
+                self.error_logger,
+            ).transform(fcp_ast)
+        except VisitError as e:
+            return _visit_error(filename, e)
 
         self.fcp.merge(
             fcp.map_err(
@@ -561,17 +582,17 @@ def _get_fcp(
     logger.add_source(filename.name, source)
     try:
         fcp_ast = fcp_parser.parse(source)
-    except UnexpectedCharacters as e:
-        return error(
-            logger.log_lark(filename.name, e),
-            Token(MetaData(e.line, e.line, e.column, e.column, 0, 0, str(filename))),
-        )
+    except UnexpectedInput as e:
+        return _lark_error(logger, filename, source, e)
 
     parser_context = ParserContext()
 
-    fcp = FcpV2Transformer(
-        filename, parser_context, filesystem_proxy, logger
-    ).transform(fcp_ast)
+    try:
+        fcp = FcpV2Transformer(
+            filename, parser_context, filesystem_proxy, logger
+        ).transform(fcp_ast)
+    except VisitError as e:
+        return _visit_error(filename, e)
 
     return Ok(fcp.attempt())
 
